@@ -523,6 +523,7 @@ package json
 //@   props C01
 //@   arith int
 //@   flag tags !binary_log
+//@   flag fp
 //@   flag assumepost strconv.AppendFloat emits a JSON number; the in-place rewrite of a trailing e-0d to e-d keeps it one (the byte automaton is not run backwards over an in-place edit)
 //@   requires valueok(dst)
 //@   ensures emitsvalue(res, dst)
@@ -534,6 +535,7 @@ package json
 //@   ensures [C01,C02] !callres(math.IsNaN, old(ncalls(math.IsNaN)), 0) && !callres(math.IsInf, old(ncalls(math.IsInf)), 0) && callres(math.IsInf, old(ncalls(math.IsInf)) + 1, 0) ==> ncalls(strconv.AppendFloat) == old(ncalls(strconv.AppendFloat)) && len(res) == len(dst) + 6 && res[len(dst)] == '"' && res[len(dst)+1] == '-' && res[len(dst)+5] == '"'
 //@   ensures [C02] !callres(math.IsNaN, old(ncalls(math.IsNaN)), 0) && ncalls(math.IsInf) == old(ncalls(math.IsInf)) + 2 && !callres(math.IsInf, old(ncalls(math.IsInf)), 0) && !callres(math.IsInf, old(ncalls(math.IsInf)) + 1, 0) ==> ncalls(strconv.AppendFloat) == old(ncalls(strconv.AppendFloat)) + 1 && callarg(strconv.AppendFloat, old(ncalls(strconv.AppendFloat)), 1) == val && callarg(strconv.AppendFloat, old(ncalls(strconv.AppendFloat)), 3) == precision && callarg(strconv.AppendFloat, old(ncalls(strconv.AppendFloat)), 4) == bitSize && (callarg(strconv.AppendFloat, old(ncalls(strconv.AppendFloat)), 2) == 'e' || callarg(strconv.AppendFloat, old(ncalls(strconv.AppendFloat)), 2) == 'f')
 //@   ensures [C02] precision != -1 && ncalls(strconv.AppendFloat) == old(ncalls(strconv.AppendFloat)) + 1 ==> callarg(strconv.AppendFloat, old(ncalls(strconv.AppendFloat)), 2) == 'f'
+//@   ensures [C02] precision == -1 && ncalls(strconv.AppendFloat) == old(ncalls(strconv.AppendFloat)) + 1 ==> (callarg(strconv.AppendFloat, old(ncalls(strconv.AppendFloat)), 2) == 'e') == (!feq(fabs(val), fconst("0", 64)) && ((bitSize == 64 && (flt(fabs(val), fconst("1e-6", 64)) || fle(fconst("1e21", 64), fabs(val)))) || (bitSize == 32 && (flt(f32(fabs(val)), fconst("1e-6", 32)) || fle(fconst("1e21", 32), f32(fabs(val)))))))
 
 //@ func (Encoder).AppendFloat32(e, dst, val, precision) res
 //@   props C01
